@@ -14,7 +14,7 @@ from . import forceh, props
 
 DIRS = ["up", "down", "left", "right"]
 TEXTS = [None, "plain", "a<b & \"c\" 'd'>", "é – 中"]
-D0, D1 = 0.0, 100.0
+D0, D1 = 3.0, 88.0  # deliberately not 'nice': an explicit domain must be used as given
 TD0, TD1 = _dt.datetime(2021, 1, 25, 6, 0), _dt.datetime(2021, 3, 5, 18, 30)
 HOLE = re.compile(r"@H\d+@")
 
@@ -71,7 +71,7 @@ def data_and_options(cfg, val, sym):
         if cfg.get("labella") is not None:
             opts["labella"] = dict(cfg["labella"])
         if cfg.get("colors"):
-            opts.update(cfg["colors"])
+            opts.update(COLOR_SETS[cfg["colors"]]())
         if cfg.get("border"):
             opts["showBorder"] = True
         if cfg.get("padding"):
@@ -81,6 +81,13 @@ def data_and_options(cfg, val, sym):
     elif ov == "none":
         opts = None if not opts else opts
     return data, opts, dict(times=times, widths=widths)
+
+
+COLOR_SETS = {
+    # 3-digit and 6-digit hex, upper/lower case, with/without '#', lists and functions
+    "set1": lambda: dict(dotColor="#f80", linkColor=["#0af", "1F77B4"], labelBgColor=lambda d: "#2CA02C" if d.get("text") else "d62", labelTextColor="#fff", borderColor=["#9467bd", "#8C5"]),
+    "set2": lambda: dict(dotColor=["abc", "#FED", "#012"], linkColor="#e377c2", labelBgColor="#17BECF", labelTextColor=lambda d: "#000", borderColor="#7f7"),
+}
 
 
 def parse_ctime(s):
@@ -307,3 +314,135 @@ def holes_equal(e, a, b):
             return False
         conj.append(tx == ty)
     return And(*conj)
+
+
+# ------------------------------------------------------------------------------------ C07 / C08 / C09
+def affine_fn(cfg, tl):
+    from . import pic
+
+    sc = cfg["scale"]
+    L = pic.LEN
+    if sc == "linear-explicit":
+        return lambda t: (t if isinstance(t, E.SymNum) else Fraction(t)) * Fraction(L) / Fraction(D1 - D0) - Fraction(D0) * L / Fraction(D1 - D0)
+    if sc == "time-explicit":
+        a, b = SymDT.lift(TD0).us, SymDT.lift(TD1).us
+
+        def f(t):
+            u = SymDT.lift(t).us if not isinstance(t, SymDT) else t.us
+            return (u - a) * Fraction(L, b - a)
+
+        return f
+    # derived domains (concrete data): the domain the scale reports after construction
+    dom = tl.options["scale"].domain()
+    if sc == "linear-derived":
+        a, b = Fraction(dom[0]), Fraction(dom[1])
+        return lambda t: Fraction(0) if a == b else (Fraction(t) - a) * L / (b - a)
+    a, b = SymDT.lift(dom[0]).us, SymDT.lift(dom[1]).us
+
+    def g(t):
+        if isinstance(t, _dt.datetime):
+            u = SymDT.lift(t).us
+        elif isinstance(t, _dt.date):
+            u = SymDT.lift(_dt.datetime.combine(t, _dt.time())).us
+        else:
+            u = SymDT.lift(t).us
+        return Fraction(0) if a == b else Fraction(u - a) * L / (b - a)
+
+    return g
+
+
+def picture(cfg, val, sym, mode):
+    from . import docs
+
+    tl, data, opts, info = build(cfg, val, sym, mode)
+    doc = export(tl, mode)
+    P = docs.parse_svg(doc) if mode == "svg" else docs.parse_tikz(doc)
+    return tl, data, P
+
+
+def fmt_ticks(tl):
+    sc = tl.options["scale"]
+    f = sc.tickFormat()
+    return [(t, f(t)) for t in sc.ticks()]
+
+
+def pic_configs(tier, prop):
+    out = []
+    k = 0
+    scales = ["linear-explicit", "time-explicit"]
+    for mode in ("svg", "tex"):
+        for sc in scales:
+            for d in DIRS:
+                k += 1
+                out.append(mk_cfg("%s-%s-%s-%s-n2" % (prop, mode, sc, d), mode=mode, scale=sc, direction=d, n=2, texts=[k % 4, (k + 2) % 4], ticks=bool(k % 3)))
+    # layers and stubs: crowded labels with an upper bound, contract stub for vpsc
+    for mode in ("svg", "tex"):
+        for d in DIRS:
+            for alg in ("overlap", "simple"):
+                k += 1
+                if tier == "quick" and (k % 2) and prop != "c08":
+                    continue
+                out.append(mk_cfg("%s-%s-layers-%s-%s" % (prop, mode, alg, d), mode=mode, scale="linear-explicit", direction=d, n=3, labella={"maxPos": 120, "algorithm": alg}, vpsc="contract", texts=[1, 0, 3], layergap=(60, 3, 1)[k % 3], weight=40, shards=4))
+    # derived domains on concrete data (date / time-of-day / datetime with time of day, unsorted, algorithm none)
+    shapes = [["2021-01-31T10:15:00", "2021-01-29T23:59:59.999"], ["date:2021-01-30", "date:2021-03-31"], ["2021-03-01T06:00:00", "2021-03-01T18:30:00", "2021-03-02T01:00:00"]]
+    for si, ts in enumerate(shapes):
+        for mode in ("svg", "tex"):
+            k += 1
+            out.append(mk_cfg("%s-%s-derived-%d" % (prop, mode, si), mode=mode, scale="time-derived", n=len(ts), ctimes=ts, direction=DIRS[k % 4], texts=[1, 2, 3], labella={"algorithm": "none"} if si == 0 else None))
+    if prop == "c08":
+        # two labels in the second layer (their stubs may have been pushed together in the first one)
+        for d in ("down", "left"):
+            out.append(mk_cfg("c08-layers4-simple-%s" % d, mode="svg", scale="linear-explicit", direction=d, n=4, labella={"maxPos": 130, "algorithm": "simple"}, vpsc="contract", texts=[0, 0, 0, 0], layergap=60, weight=80, shards=8))
+    if prop == "c09":
+        for ci, cs in enumerate(("set1", "set2")):
+            for bi, border in enumerate((True, False)):
+                out.append(mk_cfg("c09-colors-%s-%s" % (cs, "border" if border else "noborder"), scale="linear-explicit", n=3, colors=cs, border=border, direction=DIRS[(ci * 2 + bi) % 4], texts=[1, 0, 2], vpsc="contract", labella={"maxPos": 300}))
+    out.append(mk_cfg("%s-tex-none-unsorted" % prop, mode="tex", scale="linear-derived", n=3, ctimes=[80.0, 10.0, 45.0], labella={"algorithm": "none"}, texts=[1, 2, 3], direction="up"))
+    out.append(mk_cfg("%s-svg-none-unsorted" % prop, mode="svg", scale="linear-derived", n=3, ctimes=[80.0, 10.0, 45.0], labella={"algorithm": "none"}, texts=[1, 2, 3], direction="left"))
+    return out
+
+
+def c07(sink, cfg, val, sym):
+    from labella.tex import uni2tex
+
+    from . import docs, pic
+
+    if sym:
+        with_vpsc(cfg)
+    try:
+        tl, data, P = picture(cfg, val, sym, cfg["mode"])
+    finally:
+        forceh.use_contract(False)
+    V = docs.Vals(sink.e) if sym else docs.ConcVals()
+    aff = affine_fn(cfg, tl)
+    pic.c07(sink, cfg, tl, data, P, V, aff, cfg["mode"], uni2tex)
+    pic.ticks_c07(sink, cfg, tl, P, V, aff, fmt_ticks(tl))
+
+
+def c08(sink, cfg, val, sym):
+    from . import docs, pic
+
+    if sym:
+        with_vpsc(cfg)
+    try:
+        tl, data, P = picture(cfg, val, sym, cfg["mode"])
+    finally:
+        forceh.use_contract(False)
+    V = docs.Vals(sink.e) if sym else docs.ConcVals()
+    pic.c08(sink, cfg, tl, P, V)
+
+
+def c09(sink, cfg, val, sym):
+    from labella.tex import uni2tex
+
+    from . import docs, pic
+
+    if sym:
+        with_vpsc(cfg)
+    try:
+        tls, datas, Ps = picture(cfg, val, sym, "svg")
+        tlt, datat, Pt = picture(cfg, val, sym, "tex")
+    finally:
+        forceh.use_contract(False)
+    Vs = docs.Vals(sink.e) if sym else docs.ConcVals()
+    pic.c09(sink, cfg, Ps, Pt, Vs, Vs, uni2tex)
